@@ -317,7 +317,7 @@ func (*hcli) Run(rc *core.RunCtx) *core.RunResult {
 		c.join = false
 	}
 
-	full := runFQ(t, c.newOS(t, c.inputs), fqOpts{Policy: -1})
+	full := runFQ(t, c.newOS(t, c.inputs), fqOpts{Policy: -1, Fine: t.Intn(4) == 0})
 	res.Fingerprint = fnv64(0, []byte(strings.Join(c.argv(c.inputs), "\x00")))
 	for _, in := range c.inputs {
 		res.Fingerprint = fnv64(res.Fingerprint, []byte(in.text))
